@@ -134,7 +134,7 @@ def make_params(cfg, spec=None, weights=None, **extra):
             kw[k] = c[k]
     if c.get("active_set_method") == "half" and c["active"] != "Explicit":
         # user-supplied rule for the active-set estimate (called as method(iterate, lamb, rho))
-        kw["active_set_method"] = lambda iterate, lamb, rho: 0.5
+        kw["active_set_method"] = lambda iterate, lamb, rho: 0.5 / lamb
     if c.get("step_solver_callable"):
         import pygradflow.step.solver as SS
 
@@ -176,7 +176,7 @@ def rare_params(rng, allow_unvalidated=True):
     if rng.random() < 0.2:
         out["active_tol"] = float(rng.choice([1e-8, 1e-6]))
     if rng.random() < 0.2:
-        out["local_infeas_tol"] = float(rng.choice([1e-8, 1e-6]))
+        out["local_infeas_tol"] = float(rng.choice([1e-8, 1e-6, 0.0]))
     if allow_unvalidated and rng.random() < 0.2:
         out["validate_input"] = False
     if rng.random() < 0.15:
